@@ -51,7 +51,7 @@ func TestVerifC07(t *testing.T) {
 	r.Assume("trusted-contiguous and server-allocated batches respect their documented caller contract (no stored duplicates / allocator-fresh ids)")
 	r.Assume("typed ChannelLog surface, random body only: payloads are non-empty and TruncateFrom never cuts below the persisted RetainedMaxSeq; both shapes are legal inputs and are exercised by the isolated probe cases (signatures typed:probe:accepted-empty-payload-row-unreadable and typed:probe:truncate-after-trim-leo-resurrected-on-reopen) so that the random histories do not all end on the same two defects")
 	r.Assume("typed StoreRetentionState is a raw setter: only states a retention adopter would write (boundary at or below the log end, RetainedMaxSeq = max(old, LEO)) are stored")
-	r.Assume("factory-twin family: the in-memory double is not driven with a retention boundary beyond its log end (it cannot represent the sparse log between adoption and trim) nor with duplicate ids/pairs (it performs no uniqueness checks)")
+	r.Assume("factory-twin family: the in-memory double is not driven with a retention boundary beyond its log end (it cannot represent the sparse log between adoption and trim) nor with duplicate ids/pairs (it performs no uniqueness checks) nor with follower applies indexed at or below its log end (documented duplicate-prefix skip)")
 	n := r.N(120, 900)
 	ops := r.N(70, 130)
 	base := t.TempDir()
